@@ -7,3 +7,4 @@ for id in "$@"; do
   out=$(VERIF_DEV_REPO=$wt PYTHONPATH=$wt ./check $id --tier $tier 2>&1 | grep -v KNOWN-FINDING | head -4)
   echo "== $id ($tier): $(echo "$out" | head -1)"
 done
+git -C /verif checkout -- lean/Generated 2>/dev/null
